@@ -459,6 +459,9 @@ func (p *Parser) parseBuffer(buf []byte, last bool) error {
 				off++
 			}
 			p.mode = fracMap
+			if p.num.Div == 1 { // no digit after the decimal point yet
+				p.mode = dotMap
+			}
 		case numFrac:
 			p.num.AddFrac(b)
 			p.mode = fracMap
